@@ -279,7 +279,7 @@ Module Example.
 
   Definition gH := mkCfg MHash LIn 1 true.
   Definition gS := mkCfg MStat LIn 1 true.
-  Definition gS_sub := mkCfg MStat LSub 1 false.
+  Definition gS_sub := mkCfg MStat (LSub 1) 1 false.
 
   Definition fA := mkFile 5 40 50.      (* current content of (1, 7) *)
   Definition fOld := mkFile 4 40 40.    (* earlier content of the same name, same size *)
@@ -293,7 +293,7 @@ Module Example.
       ((LIn, 1, 8), EOk (KStat 1 40 50) 1005);
       ((LIn, 1, 9), EOk (KHash 2 5) 2005);
       ((LIn, 2, 7), EGarbage);
-      ((LSub, 1, 7), EOk (KStat 1 40 40) 1004) ].
+      ((LSub 1, 1, 7), EOk (KStat 1 40 40) 1004) ].
 
   Lemma ex_files_in : files_in U ex_files.
   Proof.
@@ -330,7 +330,7 @@ Module Example.
   Example ex_get_cache :
     o_cache (get derive gH LkR false ex_files ex_cache 1 7) =
     [ ((LIn, 1, 7), EOk (KHash 1 5) 1005); ((LIn, 1, 8), EOk (KStat 1 40 50) 1005);
-      ((LIn, 2, 7), EGarbage); ((LSub, 1, 7), EOk (KStat 1 40 40) 1004) ].
+      ((LIn, 2, 7), EGarbage); ((LSub 1, 1, 7), EOk (KStat 1 40 40) 1004) ].
   Proof. reflexivity. Qed.
   (* a hit: the entry of (1, 8) has the stat key of fA; planted under the name (1, 7) it is used in stat mode *)
   Example ex_hit : o_evs (get derive gS LkR false ex_files
